@@ -266,6 +266,7 @@ func (h *Hook) OnRetainMessage(cl *mqtt.Client, pk packets.Packet, r int64) {
 		Origin:      pk.Origin,
 		Properties: storage.MessageProperties{
 			PayloadFormat:          props.PayloadFormat,
+			PayloadFormatFlag:      props.PayloadFormatFlag,
 			MessageExpiryInterval:  props.MessageExpiryInterval,
 			ContentType:            props.ContentType,
 			ResponseTopic:          props.ResponseTopic,
@@ -299,6 +300,7 @@ func (h *Hook) OnQosPublish(cl *mqtt.Client, pk packets.Packet, sent int64, rese
 		Created:     pk.Created,
 		Properties: storage.MessageProperties{
 			PayloadFormat:          props.PayloadFormat,
+			PayloadFormatFlag:      props.PayloadFormatFlag,
 			MessageExpiryInterval:  props.MessageExpiryInterval,
 			ContentType:            props.ContentType,
 			ResponseTopic:          props.ResponseTopic,
